@@ -18,10 +18,12 @@ package health
 
 //@ func (*Health).AddReadiness
 //@   requires HealthOK(o)
+//@   modifies mapof(RMap(o))
 //@   ensures[set] SetTo(o, component, false)
 
 //@ func (*Health).OnReady
 //@   requires HealthOK(o)
+//@   modifies mapof(RMap(o))
 //@   ensures[set] SetTo(o, component, true)
 
 //@ func (*Health).IsReady
